@@ -466,6 +466,52 @@ func runC14(c *core.Ctx, drv string, idx int) {
 			}
 		}
 	}
+	// two tables filled in turns (their row ids interleave, the first one has
+	// grown past one page), a successful UPDATE on the one, then an UPDATE on
+	// the other whose k-th row (k > 1) overflows: whatever the successful
+	// statement left behind about where it found its rows must not stand in
+	// for a look at the other table
+	if idx%3 == 2 && fwFail == nil {
+		mkT := func(name string) *proto.Stmt {
+			return &proto.Stmt{Kind: "create", Table: name, Defs: []proto.ColDef{{Name: "k", Type: "int"}, {Name: "g", Type: "int"}, {Name: "pad", Type: "varchar", Len: 255}, {Name: "pad2", Type: "varchar", Len: 255}}}
+		}
+		ok := true
+		push := func(st *proto.Stmt) {
+			if f, _, _, err := h.DB.Apply(st); f != "" || err != nil {
+				ok = false
+				return
+			}
+			add(proto.Op{K: "stmt", Stmt: st}, meta{kind: "stmt", st: st})
+		}
+		push(mkT("ila"))
+		push(mkT("ilb"))
+		na := r.Range(10, 30)
+		big := r.Range(3, 6) // the row of ilb that overflows first: the k-th in scan order
+		nb := 0
+		for i := 0; i < na && ok; i++ {
+			push(&proto.Stmt{Kind: "insert", Table: "ila", Rows: [][]proto.Val{{proto.Int(int64(i)), proto.Int(0), proto.Str("a"), proto.Str("")}}})
+			if i >= na-8 {
+				// the rows of ilb lie among the newest rows of ila
+				nb++
+				p2 := strings.Repeat("q", 20)
+				if nb == big {
+					p2 = strings.Repeat("q", 140)
+				}
+				push(&proto.Stmt{Kind: "insert", Table: "ilb", Rows: [][]proto.Val{{proto.Int(int64(i)), proto.Int(0), proto.Str("b"), proto.Str(p2)}}})
+			}
+		}
+		if ok {
+			// successful: its last matched row sits on the right-most leaf of ila
+			push(&proto.Stmt{Kind: "update", Table: "ila", Sets: []proto.SetItem{{Col: "g", Val: proto.Int(1)}}, Where: model.Cmp(">=", model.ColOp("k"), model.LitOp(proto.Int(int64(na-r.Range(1, 4)))))})
+		}
+		if ok {
+			// row number 'big' of ilb overflows: 5+5 + 260 + 145 > 400; the others fit
+			st := &proto.Stmt{Kind: "update", Table: "ilb", Sets: []proto.SetItem{{Col: "pad", Val: proto.Str(strings.Repeat("z", 255))}}}
+			if f, _, _, err := h.DB.Plan(st); f != "" && err == nil {
+				fwFail = &failStmt{cause: "update-overflow-after-update-of-interleaved-table", k: big, n: nb, st: st}
+			}
+		}
+	}
 	add(proto.Op{K: "dump"}, meta{kind: "pre"})
 	nf := r.Range(1, 4)
 	var fails []*failStmt
